@@ -16,7 +16,7 @@ Tie B streams (implementation runner lib/impl/c19_sample.py):
             in Coq, modulo the iteration order of the BelongsTo sets); their values through the engine
             vs models.loglogit / lognested / logcnl on the full choice set, per individual; the
             _CNL_ alpha columns and the MEV weights are checked (hypotheses alphas_hold / sample_holds of
-            T19g / T19h); corpus witness of T19g_nest_repeating_an_alternative_refuted (known finding).
+            T19g / T19h); corpus witness of T19g_nest_repeating_an_alternative_refused (the full model must refuse the nest).
   validate  Partition(...) and SamplingContext.check_partition vs partition_accepts /
             check_partition_accepts.
   segsize   generate_segment_size vs the generated Gallina definition.
@@ -244,6 +244,25 @@ def gen_sizes(rng, segs, mode):
     return out
 
 
+def gen_index(rng, n):
+    """row labels of the table of alternatives: None = default RangeIndex; a permutation of 0..n-1 (table
+    sorted / reordered without reset_index); a rotation; labels shifted or spread (still integers)"""
+    r = rng.random()
+    if r < 0.3:
+        return None
+    if r < 0.65:
+        p = list(range(n))
+        rng.shuffle(p)
+        return p
+    if r < 0.8:
+        k = rng.randint(1, max(1, n - 1))
+        return [(i + k) % n for i in range(n)]
+    if r < 0.9:
+        return list(range(n - 1, -1, -1))
+    k = rng.randint(1, 50)
+    return [k + 2 * i for i in range(n)]
+
+
 def gen_case(rng, kind='sample', force=None):
     force = force or {}
     n_alt = force.get('n_alt') or rng.randint(5, 30)
@@ -271,6 +290,7 @@ def gen_case(rng, kind='sample', force=None):
         'mev_segments': None, 'mev_sizes': None, 'mev_full_set': None,
         'seed': rng.randint(0, 2 ** 31 - 1),
     }
+    case['alt_index'] = gen_index(rng, n_alt)
     if force.get('mev', rng.random() < 0.6):
         mids = ids if (rng.random() < 0.6 or kind == 'full') else sorted(rng.sample(ids, rng.randint(2, len(ids))))
         msegs = gen_partition(rng, mids, rng.randint(1, 3))
@@ -664,12 +684,13 @@ def load_corpus(kind):
 
 def case_summary(c):
     return {k: c[k] for k in ('segments', 'sizes', 'mev_segments', 'mev_sizes', 'seed', 'mode') if k in c} | {
-        'n_alt': len(c['alts']), 'n_ind': len(c['inds']), 'combined': [cv['name'] for cv in c.get('combined', [])]}
+        'n_alt': len(c['alts']), 'n_ind': len(c['inds']), 'alt_index': c.get('alt_index'), 'combined': [cv['name'] for cv in c.get('combined', [])]}
 
 
 def stream_sample(ctx):
     st = ctx.stream('sample',
-                    'alternative tables of 5-30 alternatives (ids not consecutive, table not sorted) with 1-3 attributes, '
+                    'alternative tables of 5-30 alternatives (ids not consecutive, table not sorted; row labels = RangeIndex, a permutation / '
+                    'rotation / reversal of 0..J-1, or shifted integers) with 1-3 attributes, '
                     'partitions of 1-4 unequal strata, sizes k=n / k=1 / random, optional MEV partition (possibly of a subset), '
                     '3-15 individuals (float or all-integer rows), 0-2 combined variables with shared sub-expressions; '
                     'non-trivial = some stratum with 1 < k < n or a MEV sample or a combined variable; distinct by full case')
@@ -804,8 +825,6 @@ def closed_form_sample_loglik(case, sample_ids):
 def oracle_full_case(case, res):
     out = []
     if not res.get('ok'):
-        if case.get('repeated_in_nest'):
-            return []          # the nest is refused: the finding is repaired
         return [('exception', res.get('exc'))]
     ids = sorted(int(a[0]) for a in case['alts'])
     closed = closed_form_sample_loglik(case, res['sample_ids'])
@@ -819,14 +838,20 @@ def oracle_full_case(case, res):
             out.append(('logit-exception', lg['sample_exc']))
         return out
     if case.get('repeated_in_nest'):
-        # witness of T19g_nest_repeating_an_alternative_refuted: a nest listing an alternative twice is
-        # accepted by the validators; lognested counts it twice, the sample builder once
+        # witness of T19g_nest_repeating_an_alternative_refused: a nest listing an alternative twice must be
+        # REFUSED by the validators (BiogemeError from models.lognested).  If it is accepted the nest sum of
+        # lognested counts the alternative twice, the sample builder once: the log likelihoods differ.
         nr = res['results'].get('nested', {})
-        for n, (a, b) in enumerate(zip(nr.get('sample', []), nr.get('full', []))):
-            if not rel_close(a, b):
-                out.append(('nested-repeated-alternative',
-                            {'individual': n, 'on_sample': a, 'full_model': b, 'nests': case['nested']}))
-                break
+        fe = str(nr.get('full_exc', ''))
+        if fe.startswith('BiogemeError'):
+            return out
+        if 'full' in nr:
+            out.append(('nested-repeated-alternative-accepted',
+                        {'nests': case['nested'], 'expected': 'BiogemeError from models.lognested (nest refused)',
+                         'full_model_accepted_with_values': nr['full'], 'on_sample': nr.get('sample'),
+                         'values_differ': any(not rel_close(a, b) for a, b in zip(nr.get('sample') or [], nr['full']))}))
+        else:
+            out.append(('nested-exception', {'full_exc': fe, 'sample_exc': nr.get('sample_exc')}))
         return out
     # the columns _CNL_<nest>_<j> / _MEV__CNL_<nest>_<j> hold the alpha of the sampled alternative (0 outside the nest)
     for nest in case.get('cnl') or []:
@@ -904,8 +929,7 @@ def stream_full(ctx):
                           {'case': c, 'detail': det}, 'equal log likelihoods (relative 1e-9)', det,
                           how='./check C19 --replay <this file>')
         if not r.get('ok'):
-            if not c.get('repeated_in_nest'):
-                st.disagree(case_summary(c), 'a model', r.get('exc'))
+            st.disagree(case_summary(c), 'a model', r.get('exc'))
             continue
         tree = r['results'].get('logit', {}).get('tree')
         if tree is None:
@@ -1005,7 +1029,8 @@ def gen_validate_case(rng):
     if rng.random() < 0.25 and table:
         table.remove(rng.choice(table))
     rng.shuffle(table)
-    return {'kind': 'validate', 'segments': segs, 'full_set': full, 'sizes': sizes, 'table': table, 'variant': kind,
+    tindex = gen_index(rng, len(table))
+    return {'kind': 'validate', 'table_index': tindex, 'segments': segs, 'full_set': full, 'sizes': sizes, 'table': table, 'variant': kind,
             'overlap_positions': list(pair) if pair else None}
 
 
